@@ -483,12 +483,26 @@ theorem cshape_newSpecialSymbol (sh0 sh : Shared D L) (hb : sh.commitBuf = sh0.c
   · exact cshape_panic env _ _
   · exact cshape_fuel env _
 
+theorem cshape_openSymbol (sh0 sh : Shared D L) (hb : sh.commitBuf = sh0.commitBuf) :
+    CommitShape env w Q sh0 (openSymbol env sh) := by
+  intro sh' t h
+  obtain ⟨rfl, rfl | rfl⟩ := openSymbol_cases env h
+  · exact Or.inl ⟨(fun c => by cases c), hb⟩
+  · exact Or.inl ⟨(fun c => by cases c), hb⟩
+
+theorem cshape_openSpecialSymbol (sh0 sh : Shared D L) (hb : sh.commitBuf = sh0.commitBuf) (sym : Sym) :
+    CommitShape env w Q sh0 (openSpecialSymbol env sh sym) := by
+  intro sh' t h
+  rcases openSpecialSymbol_cases env h with ⟨h1, _⟩ | ⟨rfl, rfl⟩
+  · exact cshape_newSpecialSymbol env sh0 sh hb sym sh' t h1
+  · exact Or.inl ⟨(fun c => by cases c), hb⟩
+
 theorem cshape_startSelecting (sh : Shared D L) : CommitShape env w Q sh (startSelecting env sh) := by
   unfold startSelecting
   repeat' split
   all_goals first
     | exact cshape_openPhrase env _ _ rfl
-    | exact cshape_newSpecialSymbol env _ _ rfl _
+    | exact cshape_openSpecialSymbol env _ _ rfl _
     | cshape_leaf
 
 theorem cshape_startSelectingOrInputSpace (sh : Shared D L) (h1 : Q 32) (h2 : Q 12288) :
@@ -497,7 +511,7 @@ theorem cshape_startSelectingOrInputSpace (sh : Shared D L) (h1 : Q 32) (h2 : Q 
   repeat' split
   all_goals first
     | exact cshape_openPhrase env _ _ rfl
-    | exact cshape_newSpecialSymbol env _ _ rfl _
+    | exact cshape_openSpecialSymbol env _ _ rfl _
     | cshape_leaf
     | skip
   all_goals
@@ -542,6 +556,7 @@ theorem cshape_enteringDefault (sh : Shared D L) (ev : KeyEvent)
     | exact cshape_inputChar env _ _ rfl rfl _ hq
     | exact cshape_chineseFallback env _ _ rfl rfl _ hq
     | exact cshape_chineseFallback env sh { sh with syl := (env.keyPress sh.syl ev).2 } rfl rfl ev hq
+    | exact cshape_openSymbol env _ _ rfl
     | cshape_leaf
 
 theorem cshape_enteringBackspace (sh : Shared D L) : CommitShape env w Q sh (enteringBackspace sh) := by
@@ -555,6 +570,7 @@ theorem cshape_enteringCtrlDigit (sh : Shared D L) (c : Nat) : CommitShape env w
   repeat' (first | split | (dsimp only; split))
   all_goals first
     | exact cshape_learnTrans env _ _ rfl _ _
+    | exact cshape_openSymbol env _ _ rfl
     | cshape_leaf
 
 theorem cshape_enteringTabInside (sh : Shared D L) : CommitShape env w Q sh (enteringTabInside env sh) := by
@@ -856,11 +872,26 @@ theorem nocommit_openPhrase (sh : Shared D L) : NoCommit sh.commitBuf (openPhras
   · exact nocommit_newPhrase env sh sh' t h1
   · exact ⟨(fun c => by cases c), rfl⟩
 
+theorem nocommit_newSpecialSymbol (sh : Shared D L) (sym : Sym) : NoCommit sh.commitBuf (newSpecialSymbol sh sym) := by
+  unfold newSpecialSymbol
+  repeat' (first | split | (dsimp only; split))
+  all_goals first
+    | nocommit_leaf
+    | (intro _ _ h; cases h; done)
+
+theorem nocommit_openSpecialSymbol (sh : Shared D L) (sym : Sym) :
+    NoCommit sh.commitBuf (openSpecialSymbol env sh sym) := by
+  intro sh' t h
+  rcases openSpecialSymbol_cases env h with ⟨h1, _⟩ | ⟨rfl, rfl⟩
+  · exact nocommit_newSpecialSymbol sh sym sh' t h1
+  · exact ⟨(fun c => by cases c), rfl⟩
+
 theorem nocommit_startSelecting (sh : Shared D L) : NoCommit sh.commitBuf (startSelecting env sh) := by
-  unfold startSelecting newSpecialSymbol
+  unfold startSelecting
   repeat' (first | split | (dsimp only; split))
   all_goals first
     | exact nocommit_openPhrase env _
+    | exact nocommit_openSpecialSymbol env _ _
     | nocommit_leaf
     | (intro _ _ h; cases h; done)
 
